@@ -91,6 +91,22 @@ def run(tier):
         ok = ok0 and not ok1 and not ok2
         print("%-70s %s" % ("MonorailTrace accepts a genuine free-running trace, rejects two corruptions", "ok" if ok else "UNEXPECTED"))
         good &= ok
+        # concurrent readers: a `result show` that answered with a slot the behaviour never offered is rejected
+        rrec = None
+        for i in range(60):
+            r = freerun.scenario(bins, i, _random.Random(991 + i))
+            if any(e["e"] == "shown" and e["ok"] for e in r["events"]):
+                rrec = r
+                break
+        if rrec is None:
+            raise vlib.ToolError("no free-running scenario with a reader that was answered")
+        okr0, _ = freerun.validate(rrec, tmp)
+        wr = copy.deepcopy(rrec); wr["idx"] = 903
+        e = next(x for x in wr["events"] if x["e"] == "shown" and x["ok"]); e["slot"] = 3 - e["slot"]
+        okr1, _ = freerun.validate(wr, tmp)
+        ok = okr0 and not okr1
+        print("%-70s %s" % ("MonorailTrace explains a concurrent reader's answer, rejects another slot", "ok" if ok else "UNEXPECTED"))
+        good &= ok
     finally:
         shutil.rmtree(tmp, ignore_errors=True)
     if not good:
